@@ -89,6 +89,12 @@ def mutations(y):
     d = m(); del d["host_configurations"][hl]; yield "host-missing", d
     d = m(); d["host_configurations"]["(1, 77)"] = copy.deepcopy(d["host_configurations"][h0]); yield "host-superfluous", d
     d = m(); c = d["host_configurations"].pop(hl); d["host_configurations"]["(1, 77)"] = c; yield "host-wrong-address", d
+    alt_h = h0.replace(", ", ",")
+    if alt_h != h0 and hl != h0:
+        # one host missing, another one configured twice under two spellings of its address (count unchanged)
+        d = m(); c = d["host_configurations"].pop(hl); d["host_configurations"][alt_h] = c; yield "host-duplicate-by-spelling", d
+        alt_l = hl.replace(", ", ",")
+        d = m(); c = d["host_configurations"].pop(h0); d["host_configurations"][alt_l] = c; yield "host-duplicate-by-spelling-last", d
     for f in ("os", "services", "processes"):
         d = m(); del d["host_configurations"][h0][f]; yield f"host-missing-{f}", d
     d = m(); d["host_configurations"][hl]["services"].append("nonexistent"); yield "host-unknown-service", d
